@@ -25,13 +25,13 @@ class Backend:
         self.use_environ = use_environ
         self._module = None
 
-        # Split out api (if present).
-        if api:
-            self.api = api
-        elif self.name and '/' in self.name:
-            self.name, self.api = self.name.split('/', 1)
-        else:
-            self.api = None
+        # Split out api (if present). An api passed as an argument wins
+        # over the one in the name, but the name is the module name
+        # without the api part either way.
+        name_api = None
+        if self.name and '/' in self.name:
+            self.name, name_api = self.name.split('/', 1)
+        self.api = api or name_api or None
 
         if load:
             self.load()
